@@ -27,8 +27,25 @@ class State:
     def pcz(s): return z3.And(*s.pc) if s.pc else z3.BoolVal(True)
     def assume(s, c):
         if c is True: return
-        s.pc = s.pc + (zb(c),)
+        s.pc = s.pc + conjuncts(zb(c))
 HARNESS = Body('harness', 0, '()')
+
+def conjuncts(c):
+    """split a condition into top-level conjuncts (And, Not Or, double negation), so that linear parts can be used separately"""
+    out = []; todo = [c]
+    while todo:
+        u = todo.pop()
+        if z3.is_and(u): todo += reversed(u.children())
+        elif z3.is_not(u):
+            v = u.arg(0)
+            if z3.is_not(v): todo.append(v.arg(0))
+            elif z3.is_or(v): todo += [z3.Not(x) for x in reversed(v.children())]
+            elif z3.is_true(v): out.append(z3.BoolVal(False))
+            elif z3.is_false(v): pass
+            else: out.append(u)
+        elif z3.is_true(u): pass
+        else: out.append(u)
+    return tuple(out)
 
 def fop(op, a, b):
     """IEEE-like arithmetic on extended reals; +-inf handled by sign, everything doubtful becomes nan"""
@@ -93,8 +110,10 @@ class Engine:
         s.obligations = []          # dicts: kind, cond (z3), msg, where
         # pi: a real symbol with tight bounds (trig-exact reading) or pinned to the f64 constant (keeps angle arithmetic linear)
         s.side = [PI == RV(Fraction(PI_FLOAT))] if pi_rational else list(PI_BOUNDS)
+        s.pi_rational = pi_rational
+        s.side_lin = list(s.side)   # the linear subset (ranges, remainders by constants): enough to prune loop iterations, cheap to decide
         s.stats = dict(stmts=0, forks=0, merges=0, calls=0, inlined=0, modelled=0, feas_queries=0)
-        s._ipdom = {}; s._reach = {}
+        s._ipdom = {}; s._reach = {}; s._live = {}; s._lin = {}; s._linz = {}; s._keep = []; s._rpo = {}; s._loops = {}; s._vars = {}; s._size = {}; s.feas_max_size = 300; s.feas_from = 1   # prune loop iterations from this unrolling depth on
         s.models = []               # (compiled regex, handler)
         s.overrides = {}            # body name (alias resolved) -> handler  (summaries / oracles for crate fns)
         s.used_models = {}; s.inlined_fns = {}
@@ -133,7 +152,11 @@ class Engine:
     def ipdom(s, body):
         if body.name in s._ipdom: return s._ipdom[body.name]
         nodes = list(body.blocks); EXIT = -1
-        succ = {n: ([x if x in body.blocks else EXIT for x in s.succs(body, n)] or [EXIT]) for n in nodes}
+        dead = {n for n in nodes if len(body.blocks[n]) == 1 and isinstance(body.blocks[n][0], Unreachable)}
+        succ = {}
+        for n in nodes:
+            ss = [x if x in body.blocks else EXIT for x in s.succs(body, n) if x not in dead]
+            succ[n] = ss or [EXIT]
         pd = {n: set(nodes) | {EXIT} for n in nodes}; pd[EXIT] = {EXIT}
         changed = True
         while changed:
@@ -149,6 +172,101 @@ class Engine:
             ip[n] = best
         s._ipdom[body.name] = ip
         return ip
+    def liveness(s, body):
+        """(live_in: bb -> set of local numbers, always_live: locals whose address is taken) for pruning dead temporaries at merge points"""
+        if body.name in s._live: return s._live[body.name]
+        def base_local(p):
+            while not isinstance(p, Local):
+                p = p.base
+            return p.n
+        def place_uses(p, acc):
+            # locals read when evaluating place p as an lvalue/rvalue path (index locals, deref bases)
+            while not isinstance(p, Local):
+                if isinstance(p, Index) and isinstance(p.idx, Local): acc.add(p.idx.n)
+                p = p.base
+            acc.add(p.n)
+        def op_uses(o, acc):
+            if isinstance(o, (Copy, Move)): place_uses(o.place, acc)
+        addr = set(); gen = {}; kill = {}
+        for bb, stmts in body.blocks.items():
+            g, k = set(), set()
+            def use(acc_fn, *a):
+                tmp = set(); acc_fn(*a, tmp)
+                for n in tmp:
+                    if n not in k: g.add(n)
+            for st_ in stmts:
+                if isinstance(st_, Assign):
+                    rv = st_.rv
+                    if isinstance(rv, (Use, Cast)): use(op_uses, rv.op)
+                    elif isinstance(rv, Ref): use(place_uses, rv.place); addr.add(base_local(rv.place))
+                    elif isinstance(rv, BinOp): use(op_uses, rv.a); use(op_uses, rv.b)
+                    elif isinstance(rv, UnOp): use(op_uses, rv.a)
+                    elif isinstance(rv, Discr): use(place_uses, rv.place)
+                    elif isinstance(rv, Repeat): use(op_uses, rv.op)
+                    elif isinstance(rv, Aggregate):
+                        for o in rv.fields: use(op_uses, o)
+                    if isinstance(st_.place, Local): k.add(st_.place.n)
+                    else: use(place_uses, st_.place)
+                elif isinstance(st_, Call):
+                    for o in st_.args: use(op_uses, o)
+                    if isinstance(st_.dest, Local): k.add(st_.dest.n)
+                    else: use(place_uses, st_.dest)
+                elif isinstance(st_, SwitchInt): use(op_uses, st_.op)
+                elif isinstance(st_, Assert): use(op_uses, st_.cond)
+                elif isinstance(st_, Drop): pass
+                elif isinstance(st_, Return): g.add(0) if 0 not in k else None
+                elif isinstance(st_, Unparsed):
+                    for mm in re.finditer(r'_(\d+)', st_.text): g.add(int(mm.group(1)))
+            gen[bb] = g; kill[bb] = k
+        live = {bb: set() for bb in body.blocks}
+        changed = True
+        while changed:
+            changed = False
+            for bb in body.blocks:
+                out = set()
+                for x in s.succs(body, bb):
+                    if x in live: out |= live[x]
+                new = gen[bb] | (out - kill[bb])
+                if new != live[bb]: live[bb] = new; changed = True
+        s._live[body.name] = (live, addr)
+        return s._live[body.name]
+    def prune_dead(s, st, fr, bb):
+        """drop locals of frame fr that are dead at bb: not live by the dataflow analysis and not the target of a reference held by a live
+        local (address-taken locals such as loop iterators would otherwise keep stale, unmergeable values)"""
+        body = st.frames[fr].body
+        if body is HARNESS or bb not in body.blocks: return
+        live, addr = s.liveness(body)
+        loc = st.frames[fr].locals
+        keep = set(live[bb]) | {0} | set(range(1, body.nargs + 1))
+        def refs_in(v, acc, depth=0):
+            if isinstance(v, RefV):
+                if v.frame == fr: acc.add(v.local)
+            elif hasattr(v, 'items') and depth < 6:
+                for x in v.items: refs_in(x, acc, depth + 1)
+            elif isinstance(v, (VecV, IterV)) and depth < 6:
+                for _, x in v.ents: refs_in(x, acc, depth + 1)
+        todo = list(keep)
+        while todo:
+            k = todo.pop()
+            if k not in loc: continue
+            acc = set(); refs_in(loc[k], acc)
+            for r in acc:
+                if r not in keep: keep.add(r); todo.append(r)
+        # references held by callers/callees frames into this frame
+        for fi, f_ in enumerate(st.frames):
+            if fi == fr: continue
+            for v in f_.locals.values():
+                acc = set(); refs_in(v, acc)
+                for r in acc:
+                    if r not in keep:
+                        keep.add(r); todo.append(r)
+        while todo:
+            k = todo.pop()
+            if k not in loc: continue
+            acc = set(); refs_in(loc[k], acc)
+            for r in acc:
+                if r not in keep: keep.add(r); todo.append(r)
+        for k in [k for k in loc if k not in keep and (isinstance(k, int) or (isinstance(k, tuple) and k and k[0] == 'tmp'))]: del loc[k]
     def reaches(s, body, a, b):
         key = (body.name, a, b)
         if key in s._reach: return s._reach[key]
@@ -223,10 +341,10 @@ class Engine:
         if re.match(r'^(std|core)::f64::consts::PI$', t) or t.endswith('f64::consts::PI'): return F(PI)
         if re.search(r'f64::consts::FRAC_PI_2$', t): return F(PI / 2)
         if re.search(r'f64::consts::TAU$', t): return F(2 * PI)
-        if re.search(r'(^|::)f64::INFINITY$', t): return F_INF(1)
-        if re.search(r'(^|::)f64::NEG_INFINITY$', t): return F_INF(-1)
-        if re.search(r'(^|::)f64::NAN$', t): return F_NAN()
-        if re.search(r'(^|::)f64::EPSILON$', t): return fconst(Fraction(2.220446049250313e-16))
+        if re.search(r'(^|::)f64::(<impl f64>::)?INFINITY$', t): return F_INF(1)
+        if re.search(r'(^|::)f64::(<impl f64>::)?NEG_INFINITY$', t): return F_INF(-1)
+        if re.search(r'(^|::)f64::(<impl f64>::)?NAN$', t): return F_NAN()
+        if re.search(r'(^|::)f64::(<impl f64>::)?EPSILON$', t): return fconst(Fraction(2.220446049250313e-16))
         if t.startswith('ZeroSized: '):
             ty = t[len('ZeroSized: '):]
             if ty.startswith('{closure@'): return Closure(ty, [])
@@ -243,7 +361,7 @@ class Engine:
                 s.const_cache[t] = outs[0][1]
             return s.const_cache[t]
         a = s.resolve_name(t)
-        if a in s.bodies and a != t: return s.const(a, st)
+        if (a in s.bodies or a in s.bodies.simple) and a != t: return s.const(a, st)
         ev = s.enum_variant(t)
         if ev is not None: return Enum(ev[1], [], ev[0])
         raise Inconclusive('const ' + t)
@@ -294,8 +412,11 @@ class Engine:
         p = b_or(a.nan, b.nan, a.is_inf(), b.v == 0)      # x % inf = x is not modelled (never used with inf divisor here)
         k = fresh('remk', 'int'); r = fresh('rem')
         m = z3.If(b.v >= 0, b.v, -b.v)
-        s.side.append(z3.Implies(z3.Not(zb(p)), z3.And(a.v == z3.ToReal(k) * m + r,
-                      z3.If(a.v >= 0, z3.And(r >= 0, r < m), z3.And(r <= 0, r > -m)))))
+        c = z3.Implies(z3.Not(zb(p)), z3.And(a.v == z3.ToReal(k) * m + r,
+                      z3.If(a.v >= 0, z3.And(r >= 0, r < m), z3.And(r <= 0, r > -m))))
+        s.side.append(c)
+        # for pruning only the range of the remainder is kept (the integer quotient makes the pruning queries slow and is not needed there)
+        if s.pi_rational: s.side_lin.append(z3.Implies(z3.Not(zb(p)), z3.If(a.v >= 0, z3.And(r >= 0, r < m), z3.And(r <= 0, r > -m))))
         return F(r, p, 0)
     def rvalue(s, st, fr, rv):
         if isinstance(rv, Use): return s.operand(st, fr, rv.op)
@@ -392,6 +513,7 @@ class Engine:
         return out
     def merge2(s, a, b):
         if len(a.frames) != len(b.frames): raise Unmergeable('frames')
+        if a.unwind != b.unwind: raise Unmergeable('different loop iterations')
         # common prefix of the path conditions
         n = 0
         while n < len(a.pc) and n < len(b.pc) and a.pc[n].eq(b.pc[n]): n += 1
@@ -400,7 +522,8 @@ class Engine:
         if not ra: ca = z3.BoolVal(True)
         cb = z3.And(*rb) if len(rb) != 1 else rb[0]
         if not rb: cb = z3.BoolVal(True)
-        m = State(); m.unwind = {**b.unwind, **a.unwind}
+        m = State(); m.unwind = dict(b.unwind)
+        for k_, v_ in a.unwind.items(): m.unwind[k_] = max(v_, m.unwind.get(k_, 0))
         for fa, fb in zip(a.frames, b.frames):
             if fa.body is not fb.body: raise Unmergeable('body')
         for fa, fb in zip(a.frames, b.frames):
@@ -414,18 +537,94 @@ class Engine:
         m.aux = dict(b.aux); m.aux.update(a.aux)
         for k in a.aux.keys() & b.aux.keys():
             if a.aux[k] is not b.aux[k]:
-                try: m.aux[k] = ite(ca, a.aux[k], b.aux[k])
-                except Unmergeable: raise
+                if isinstance(a.aux[k], int) and isinstance(b.aux[k], int): m.aux[k] = max(a.aux[k], b.aux[k])   # harness bookkeeping counters
+                else: m.aux[k] = ite(ca, a.aux[k], b.aux[k])
         if len(ra) == 1 and len(rb) == 1 and (z3.Not(ra[0]).eq(rb[0]) or ra[0].eq(z3.Not(rb[0]))):
             m.pc = a.pc[:n]
         else:
-            m.pc = a.pc[:n] + (z3.simplify(z3.Or(ca, cb)),)
+            m.pc = a.pc[:n] + (z3.Or(ca, cb),)
         return m
 
     # ---------- execution ----------
-    def feasible(s, cond, timeout=5000):
+    def is_linear(s, e):
+        """no products/divisions of two non-constant terms anywhere in e (memoised by term id)"""
+        k = e.get_id()
+        r = s._lin.get(k)
+        if r is not None: return r
+        r = True
+        kind = e.decl().kind() if z3.is_app(e) else None
+        if kind == z3.Z3_OP_MUL:
+            r = sum(0 if (z3.is_rational_value(c) or z3.is_int_value(c)) else 1 for c in e.children()) <= 1
+        elif kind in (z3.Z3_OP_DIV, z3.Z3_OP_IDIV, z3.Z3_OP_MOD, z3.Z3_OP_REM):
+            r = z3.is_rational_value(e.arg(1)) or z3.is_int_value(e.arg(1))
+        elif kind == z3.Z3_OP_POWER: r = False
+        if r:
+            for c in e.children():
+                if not s.is_linear(c): r = False; break
+        s._lin[k] = r; return r
+    def linearize(s, e):
+        """replace every maximal non-linear subterm by a fresh constant (same subterm -> same constant): a sound linear over-approximation"""
+        k = e.get_id()
+        r = s._linz.get(k)
+        if r is not None: return r
+        if s.is_linear(e): r = e
+        else:
+            kind = e.decl().kind() if z3.is_app(e) else None
+            nonlin_here = False
+            if kind == z3.Z3_OP_MUL: nonlin_here = sum(0 if (z3.is_rational_value(c) or z3.is_int_value(c)) else 1 for c in e.children()) > 1
+            elif kind in (z3.Z3_OP_DIV, z3.Z3_OP_IDIV, z3.Z3_OP_MOD, z3.Z3_OP_REM): nonlin_here = not (z3.is_rational_value(e.arg(1)) or z3.is_int_value(e.arg(1)))
+            elif kind == z3.Z3_OP_POWER: nonlin_here = True
+            if nonlin_here: r = z3.FreshConst(e.sort(), 'nl')
+            else:
+                ch = [s.linearize(c) for c in e.children()]
+                r = e.decl()(*ch)
+        s._linz[k] = r; s._keep.append(e); return r
+    def size_of(s, e, cap=5000):
+        k = e.get_id(); r = s._size.get(k)
+        if r is not None: return r
+        n = 0; todo = [e]; seen = set()
+        while todo and n <= cap:
+            u = todo.pop(); i = u.get_id()
+            if i in seen: continue
+            seen.add(i); n += 1; todo += u.children()
+        s._size[k] = n; s._keep.append(e); return n
+    def vars_of(s, e):
+        k = e.get_id(); r = s._vars.get(k)
+        if r is not None: return r
+        acc = set(); todo = [e]; seen = set()
+        while todo:
+            u = todo.pop()
+            i = u.get_id()
+            if i in seen: continue
+            seen.add(i)
+            if z3.is_const(u):
+                if u.decl().kind() == z3.Z3_OP_UNINTERPRETED: acc.add(i)
+            else: todo += u.children()
+        r = frozenset(acc); s._vars[k] = r; s._keep.append(e); return r
+    def feasible(s, conds, timeout=2000, focus=None):
+        """may the conjunction hold? decided on a LINEAR abstraction (non-linear subterms replaced by fresh constants) of the conjuncts in the
+        cone of influence of `focus` (default: the last conjunct), plus the linear side constraints in that cone: a sound over-approximation,
+        used only for pruning loop iterations"""
         s.stats['feas_queries'] += 1
-        sol = z3.Solver(); sol.set('timeout', timeout); sol.add(s.side); sol.add(cond)
+        conds = list(conds)
+        if not conds: return True
+        focus = focus if focus is not None else [conds[-1]]
+        # giant merged disjunctions are left out (sound: fewer conjuncts = weaker); bounds and recent loop conditions are small
+        conds = [c for c in conds if s.size_of(c) <= s.feas_max_size]
+        lin = [s.linearize(c) for c in conds] ; flin = [s.linearize(c) for c in focus]
+        pool = [(c, s.vars_of(c)) for c in lin] + [(c, s.vars_of(c)) for c in s.side_lin]
+        cone = set()
+        for c in flin: cone |= s.vars_of(c)
+        chosen = [False] * len(pool); changed = True
+        while changed:
+            changed = False
+            for i, (c, vs) in enumerate(pool):
+                if not chosen[i] and (vs & cone):
+                    chosen[i] = True; changed = True; cone |= vs
+        sol = z3.Solver(); sol.set('timeout', timeout)
+        for c in flin: sol.add(c)
+        for i, (c, vs) in enumerate(pool):
+            if chosen[i]: sol.add(c)
         return sol.check() != z3.unsat
     def call_body(s, st, body, args):
         fr = Frame(body, len(st.frames))
@@ -449,88 +648,163 @@ class Engine:
         return res
     def add_obligation(s, kind, cond, msg, where):
         s.obligations.append(dict(kind=kind, cond=cond, msg=msg, where=where))
-    def run(s, st, fr, bb, stop):
-        body = st.frames[fr].body
-        while True:
-            if bb == stop: return [('stop', st)]
-            blk = body.blocks[bb]
-            for stmt in blk[:-1]:
-                s.stats['stmts'] += 1
-                if isinstance(stmt, Assign):
-                    try: s.write(st, fr, stmt.place, s.rvalue(st, fr, stmt.rv))
-                    except NotImplementedError as e: raise Inconclusive(f'{body.name} bb{bb}: {e!r}')
-                elif isinstance(stmt, Nop): pass
-                elif isinstance(stmt, Unparsed): raise Inconclusive(f'unparsed MIR in {body.name}: {stmt.text[:100]}')
-                else:
-                    if isinstance(stmt, Call): raise Inconclusive('call in statement position')
-                    raise Inconclusive(f'statement {stmt}')
-            t = blk[-1]; s.stats['stmts'] += 1
-            if isinstance(t, Goto): bb = t.target; continue
-            if isinstance(t, Return): return [('ret', st)]
-            if isinstance(t, Unreachable):
-                s.add_obligation('unreachable', st.pcz(), 'unreachable', f'{body.name} bb{bb}'); return []
-            if isinstance(t, Drop): bb = t.target; continue
-            if isinstance(t, Assert):
-                c = s.operand(st, fr, t.cond)
-                ok = c if t.expected else b_not(c)
-                if isz(ok):
-                    s.add_obligation('panic', z3.And(st.pcz(), z3.Not(ok)), t.msg, f'{body.name} bb{bb}'); st.assume(ok)
-                elif not ok:
-                    s.add_obligation('panic', st.pcz(), t.msg, f'{body.name} bb{bb}'); return []
-                bb = t.target; continue
-            if isinstance(t, Unparsed): raise Inconclusive(f'unparsed MIR in {body.name}: {t.text[:100]}')
-            if isinstance(t, Call):
-                s.stats['calls'] += 1
-                args = [s.operand(st, fr, a) for a in t.args]
-                results = s.call(st, fr, t.func, args)
-                nxt = []
-                for o, v in results:
-                    if t.target is None: continue      # diverging call (panic): handled by the model as an obligation
-                    s.write(o, fr, t.dest, v); nxt.append(o)
-                if not nxt: return []
-                if len(nxt) > 1: nxt = s.merge(nxt)
-                if len(nxt) == 1: st = nxt[0]; bb = t.target; continue
-                outs = []
-                for o in nxt: outs += s.run(o, fr, t.target, stop)
-                return outs
-            if isinstance(t, SwitchInt):
-                v = s.operand(st, fr, t.op)
-                if isz(v):
-                    v = z3.simplify(v)
-                    if z3.is_true(v): v = True
-                    elif z3.is_false(v): v = False
-                    elif z3.is_int_value(v): v = v.as_long()
-                if not isz(v):
-                    bb = dict(t.targets).get(int(v), t.otherwise); continue
-                s.stats['forks'] += 1
-                ip = s.ipdom(body)[bb]
-                isbool = z3.is_bool(v)
-                arms, others = [], []
-                for val, tgt in t.targets:
-                    c = (z3.Not(v) if val == 0 else v) if isbool else (v == val)
-                    arms.append((c, tgt)); others.append(z3.Not(c))
-                if t.otherwise is not None: arms.append((z3.And(others) if len(others) > 1 else others[0], t.otherwise))
-                key = (fr, body.name, bb)
-                depth = st.unwind.get(key, 0)
-                K = s.loop_bounds.get(body.name.split('::')[-1], s.K)
-                outs = []
-                for c, tgt in arms:
-                    back = s.reaches(body, tgt, bb)
-                    if back and depth >= K:
-                        s.add_obligation('unwind', z3.And(st.pcz(), c), f'loop bound K={K}', f'{body.name} bb{bb}'); continue
-                    if (back and depth >= 1) or s.check_feasible_all:
-                        if not s.feasible(z3.And(st.pcz(), c)): continue
-                    a = st.clone(); a.pc = st.pc + (c,); a.unwind[key] = depth + (1 if back else 0)
-                    outs += s.run(a, fr, tgt, ip if ip != -1 else None)
-                stops = [o for k, o in outs if k == 'stop']
-                if len(stops) > 1: stops = s.merge(stops)
-                res = [(k, o) for k, o in outs if k == 'ret']
-                if len(stops) + len(res) > s.max_states: raise Inconclusive(f'state explosion in {body.name} bb{bb}')
-                for o in stops:
-                    o.unwind = dict(st.unwind)
-                    res += s.run(o, fr, ip, stop)
-                return res
-            raise Inconclusive(f'terminator {t}')
+    def rpo(s, body):
+        """reverse post-order index of every block (loop headers before their bodies, joins after all their predecessors)"""
+        if body.name in s._rpo: return s._rpo[body.name]
+        seen, order = set(), []
+        stack = [(0, iter(s.succs(body, 0)))]; seen.add(0)
+        while stack:
+            n, it = stack[-1]
+            for x in it:
+                if x in body.blocks and x not in seen:
+                    seen.add(x); stack.append((x, iter(s.succs(body, x)))); break
+            else:
+                order.append(n); stack.pop()
+        idx = {n: i for i, n in enumerate(reversed(order))}
+        s._rpo[body.name] = idx; return idx
+    def loops(s, body):
+        """block -> tuple of enclosing loops, innermost first; a loop is (header, frozenset of blocks). Loops = non-trivial SCCs, nested
+        loops found by removing the header and decomposing again."""
+        if body.name in s._loops: return s._loops[body.name]
+        rpo = s.rpo(body)
+        def sccs(nodes):
+            nodes = set(nodes); index = {}; low = {}; onst = set(); stack = []; out = []; cnt = [0]
+            for root in sorted(nodes, key=lambda n: rpo.get(n, 1 << 30)):
+                if root in index: continue
+                work = [(root, iter([x for x in s.succs(body, root) if x in nodes]))]
+                index[root] = low[root] = cnt[0]; cnt[0] += 1; stack.append(root); onst.add(root)
+                while work:
+                    n, it = work[-1]
+                    adv = False
+                    for x in it:
+                        if x not in index:
+                            index[x] = low[x] = cnt[0]; cnt[0] += 1; stack.append(x); onst.add(x)
+                            work.append((x, iter([y for y in s.succs(body, x) if y in nodes]))); adv = True; break
+                        elif x in onst: low[n] = min(low[n], index[x])
+                    if adv: continue
+                    work.pop()
+                    if work: low[work[-1][0]] = min(low[work[-1][0]], low[n])
+                    if low[n] == index[n]:
+                        comp = []
+                        while True:
+                            x = stack.pop(); onst.discard(x); comp.append(x)
+                            if x == n: break
+                        if len(comp) > 1 or n in s.succs(body, n): out.append(comp)
+            return out
+        encl = {n: [] for n in body.blocks}
+        def rec(nodes):
+            for comp in sccs(nodes):
+                h = min(comp, key=lambda n: rpo.get(n, 1 << 30)); L = (h, frozenset(comp))
+                for n in comp: encl[n].append(L)
+                rec([n for n in comp if n != h])
+        rec(list(body.blocks))
+        res = {n: tuple(reversed(v)) for n, v in encl.items()}     # innermost first
+        s._loops[body.name] = res; return res
+    def run(s, st0, fr, bb0, stop):
+        """worklist execution of one function body with state merging at every join: the pending block with the smallest reverse-post-order
+        index is executed next, all mergeable states waiting at it are merged first (loops finish before their exits proceed)."""
+        body = st0.frames[fr].body
+        rpo = s.rpo(body); lp = s.loops(body)
+        pending = {bb0: [st0]}; rets = []
+        steps = 0
+        while pending:
+            # least-advanced first: order by (header rpo, iterations completed) along the loop nest, then by rpo of the block, so that a state
+            # that has come round to a loop header waits for the rest of its iteration before the next iteration starts
+            def skey(b, st_):
+                k = []
+                for h, L in reversed(lp.get(b, ())): k += [rpo.get(h, 1 << 30), st_.unwind.get((fr, body.name, h), 0)]
+                return tuple(k) + (rpo.get(b, 1 << 30),)
+            bb = min(pending, key=lambda b: min(skey(b, x) for x in pending[b]))
+            allst = pending.pop(bb)
+            kmin = min(skey(bb, x) for x in allst)
+            sts = [x for x in allst if skey(bb, x) == kmin]
+            rest = [x for x in allst if skey(bb, x) != kmin]
+            if rest: pending[bb] = rest
+            if len(sts) > 1:
+                for o in sts: s.prune_dead(o, fr, bb)
+                sts = s.merge(sts)
+            if len(sts) > s.max_states: raise Inconclusive(f'state explosion in {body.name} bb{bb}: {len(sts)} unmergeable states')
+            for st in sts:
+                steps += 1
+                if steps > 200000: raise Inconclusive(f'step budget exhausted in {body.name}')
+                for nbb, nst in s.step_block(st, fr, body, bb):
+                    for h, L in lp.get(bb, ()):
+                        if nbb is None or nbb not in L: nst.unwind.pop((fr, body.name, h), None)
+                        elif nbb == h: nst.unwind[(fr, body.name, h)] = nst.unwind.get((fr, body.name, h), 0) + 1     # one more iteration completed
+                    if nbb is None: rets.append(('ret', nst))
+                    else: pending.setdefault(nbb, []).append(nst)
+        return rets
+    def step_block(s, st, fr, body, bb):
+        """execute block bb of the top frame; returns [(next block or None for return, state)]"""
+        blk = body.blocks[bb]
+        for stmt in blk[:-1]:
+            s.stats['stmts'] += 1
+            if isinstance(stmt, Assign):
+                try: s.write(st, fr, stmt.place, s.rvalue(st, fr, stmt.rv))
+                except NotImplementedError as e: raise Inconclusive(f'{body.name} bb{bb}: {e!r}')
+            elif isinstance(stmt, Nop): pass
+            elif isinstance(stmt, Unparsed): raise Inconclusive(f'unparsed MIR in {body.name}: {stmt.text[:100]}')
+            else: raise Inconclusive(f'statement {stmt}')
+        t = blk[-1]; s.stats['stmts'] += 1
+        if isinstance(t, Goto): return [(t.target, st)]
+        if isinstance(t, Return): return [(None, st)]
+        if isinstance(t, Unreachable):
+            s.add_obligation('unreachable', st.pcz(), 'unreachable', f'{body.name} bb{bb}'); return []
+        if isinstance(t, Drop): return [(t.target, st)]
+        if isinstance(t, Assert):
+            c = s.operand(st, fr, t.cond)
+            ok = c if t.expected else b_not(c)
+            if isz(ok):
+                s.add_obligation('panic', z3.And(st.pcz(), z3.Not(ok)), t.msg, f'{body.name} bb{bb}'); st.assume(ok)
+            elif not ok:
+                s.add_obligation('panic', st.pcz(), t.msg, f'{body.name} bb{bb}'); return []
+            return [(t.target, st)]
+        if isinstance(t, Unparsed): raise Inconclusive(f'unparsed MIR in {body.name}: {t.text[:100]}')
+        if isinstance(t, Call):
+            s.stats['calls'] += 1
+            args = [s.operand(st, fr, a) for a in t.args]
+            results = s.call(st, fr, t.func, args)
+            nxt = []
+            for o, v in results:
+                if t.target is None: continue      # diverging call: the model recorded the panic obligation
+                s.write(o, fr, t.dest, v); nxt.append((t.target, o))
+            return nxt
+        if isinstance(t, SwitchInt):
+            v = s.operand(st, fr, t.op)
+            if isz(v):
+                vs = z3.simplify(v)      # only to detect constants: the original term is kept so that equal sub-terms stay identical
+                if z3.is_true(vs): v = True
+                elif z3.is_false(vs): v = False
+                elif z3.is_int_value(vs): v = vs.as_long()
+            if not isz(v):
+                return [(dict(t.targets).get(int(v), t.otherwise), st)]
+            s.stats['forks'] += 1
+            isbool = z3.is_bool(v)
+            arms, others = [], []
+            for val, tgt in t.targets:
+                c = (z3.Not(v) if val == 0 else v) if isbool else (v == val)
+                arms.append((c, tgt)); others.append(z3.Not(c))
+            if t.otherwise is not None: arms.append((z3.And(others) if len(others) > 1 else others[0], t.otherwise))
+            enc = s.loops(body).get(bb, ())
+            inner = enc[0] if enc else None
+            stay = [inner is not None and tgt in inner[1] for _, tgt in arms]
+            controls = inner is not None and any(stay) and not all(stay)     # this switch decides whether the innermost loop continues
+            key = (fr, body.name, inner[0]) if inner else None
+            depth = st.unwind.get(key, 0) if controls else 0
+            K = s.loop_bounds.get(body.name.split('::')[-1], s.K)
+            outs = []
+            for (c, tgt), stays in zip(arms, stay):
+                if len(body.blocks[tgt]) == 1 and isinstance(body.blocks[tgt][0], Unreachable):
+                    if z3.is_false(z3.simplify(c)): continue
+                back = controls and stays
+                if back and depth >= K:
+                    s.add_obligation('unwind', z3.And(st.pcz(), c), f'loop bound K={K}', f'{body.name} bb{bb}'); continue
+                if (controls and depth >= s.feas_from) or s.check_feasible_all:
+                    if not s.feasible(st.pc + conjuncts(c), focus=list(conjuncts(c))): continue
+                a = st.clone(); a.pc = st.pc + conjuncts(c)
+                outs.append((tgt, a))
+            return outs
+        raise Inconclusive(f'terminator {t}')
 
     # ---------- calls ----------
     def resolve_name(s, func):
@@ -540,12 +814,14 @@ class Engine:
         g = strip_generics(f)
         if g in s.bodies: return g
         if g in s.alias: return s.alias[g]
-        # <Type as Trait>::method
-        m = re.match(r'^<(.+) as ([\w:]+)(?:<.*>)?>::(\w+)$', g)
+        # <Type as Trait>::method[::nested item]
+        m = re.match(r'^<(.+) as ([\w:]+)(?:<.*>)?>::(\w+)((?:::.+)?)$', g)
         if m:
             ty, trait, meth = strip_generics(m.group(1)), m.group(2).split('::')[-1], m.group(3)
             k = (ty.lstrip('&').replace('mut ', ''), trait, meth)
-            if k in s.alias: return s.alias[k]
+            if k in s.alias:
+                cand = s.alias[k] + m.group(4)
+                if cand in s.bodies or cand in s.bodies.simple: return cand
         return f
     def call(s, st, fr, func, args):
         f = s.resolve_name(func)
